@@ -144,6 +144,11 @@ def _one(job):
             out.append(dict(name=name, **res))
         except R.Unsupported as e:
             out.append(dict(name=name, skipped=str(e)))
+        except IndexError as e:
+            if " outside (" in str(e):  # raised by the kernel interpreter's bounds checks: the kernel leaves its arrays
+                out.append(dict(name=name, comparisons=[dict(config=None, kernel=f"out-of-bounds access: {e}", reference="", ok=False, err=float("inf"), tol=0.0)]))
+            else:
+                out.append(dict(name=name, crashed=f"{type(e).__name__}: {e}", tb=traceback.format_exc()[-1500:]))
         except Exception as e:  # noqa: BLE001
             out.append(dict(name=name, crashed=f"{type(e).__name__}: {e}", tb=traceback.format_exc()[-1500:]))
     return dict(file=rel, opts=opts, results=out)
@@ -364,9 +369,12 @@ def _expression(kn, seed, run_kernel, ufl):
     cel = dom.ufl_coordinate_element()
     tdim = dom.ufl_cell().topological_dimension
     ext = kn.ext
-    w_total = sum(c.ufl_element().dim for c in coeffs)
-    if ext.ext["w"] != w_total:
-        raise R.Unsupported("coefficients dropped by preprocessing (packing not reconstructible here)")
+    # w holds the coefficients that SURVIVE UFL's preprocessing (derivatives of piecewise constants vanish, ...), densely
+    # packed in original order; the surviving set is read off the UFL-processed expression
+    alive = {c.count() for c in ua.extract_coefficients(kn.processed)}
+    packed = [c for c in coeffs if c.count() in alive]
+    if ext.ext["w"] != sum(c.ufl_element().dim for c in packed):
+        raise R.Unsupported("cannot reconstruct the coefficient packing")
     rng = np.random.default_rng(seed)
     on_facet = points.shape[1] < tdim
     if on_facet and points.shape[1] != tdim - 1:
@@ -391,7 +399,8 @@ def _expression(kn, seed, run_kernel, ufl):
             ref = np.array([[evaluator(expr, {None: X}, comp) for comp in comps] for X in Xs])
             dt = complex if cm else float
             A = np.zeros(ext.ext["A"], dtype=dt)
-            w = np.concatenate(cdofs[0]).astype(dt) if coeffs else np.zeros(1, dtype=dt)
+            wl = [d for c, d in zip(coeffs, cdofs[0]) if c.count() in alive]
+            w = np.concatenate(wl).astype(dt) if wl else np.zeros(1, dtype=dt)
             cc = np.concatenate(cvals).astype(dt) if cvals else np.zeros(1, dtype=dt)
             xdofs = np.zeros((cell.v.shape[0], 3))
             xdofs[:, : cell.gdim] = cell.v
